@@ -149,12 +149,12 @@ theorem idx_spec (g : Graph) (node : String) (idx : List Int) :
 /-- selecting by level returns the nodes of that level of the named tree, in creation order (never an error, and
     never a node of another tree or unit whose name merely starts with the same characters) -/
 theorem lvl_spec (g : Graph) (node : String) (lvl : Int) :
-    nodesFromLvl g node lvl = .ok (((g.nodes.filter fun n => inTree node n.name).filter
+    nodesFromLvl g node lvl = .ok (((g.nodes.filter fun n => inTree node lvl n.name).filter
       (fun n => n.lvl.map (fun (l : Nat) => (l : Int)) == some lvl)).map (·.name)) := rfl
 
 /-- a name that continues the tree's name with anything but `_` is not a node of the tree (`r2_0` for tree `r`) -/
-theorem not_inTree_of_next (node name : String) (c : Char) (rest : List Char) (hc : c ≠ '_')
-    (hn : name.toList = node.toList ++ c :: rest) : inTree node name = false := by
+theorem not_inTree_of_next (node name : String) (lvl : Int) (c : Char) (rest : List Char) (hc : c ≠ '_')
+    (hn : name.toList = node.toList ++ c :: rest) : inTree node lvl name = false := by
   unfold inTree
   have h1 : (name == node) = false := by
     rw [beq_eq_false_iff_ne]
@@ -176,7 +176,8 @@ theorem not_inTree_of_next (node name : String) (c : Char) (rest : List Char) (h
   rw [h1, h2]; rfl
 
 /-! non-vacuity -/
-example : inTree "r" "r_0_12" = true ∧ inTree "r" "r2_0" = false ∧ inTree "r" "r_cfg" = false ∧ inTree "rt" "rt" = true ∧ inTree "r" "r_" = false := by decide
+example : inTree "r" 1 "r_0_12" = true ∧ inTree "r" 0 "r2_0" = false ∧ inTree "r" 3 "r_cfg" = false ∧ inTree "rt" 0 "rt" = true ∧
+    inTree "r" 2 "r_" = false ∧ inTree "r" 0 "r_1_0" = false ∧ inTree "r" 1 "r_1_0" = true := by decide
 example : cartNames "r" [(0, 1), (2, 1)] = ["r_0_2", "r_0_1", "r_1_2", "r_1_1"] := by decide
 example : pyRange 2 0 = [2, 1, 0] ∧ pyRange 1 1 = [1] ∧ pyRange (-1) 1 = [-1, 0, 1] := by decide
 
